@@ -23,19 +23,19 @@ import (
 type sk uint8
 
 const (
-	skConc  sk = iota // concrete evaluator value in c
-	skGet             // the string Get prints for metric `label`
-	skBool            // symbolic boolean f
-	skBuf             // byte buffer (or its string view): pieces
-	skPtr             // pointer to a local variable
-	skRecv            // the receiver object (value or pointer)
-	skTuple           // multi-value
-	skIte             // f ? a : b
-	skUnk             // unknown number (results of the sizing function)
-	skStruct          // record of values (flag sets, typed error literals): fields
-	skBits            // integer whose bits are formulas (bit sets): bits, LSB first
-	skArr             // fixed array of values: elems
-	skLin             // integer as a linear form: lbase + Σ [guard]·k (+ len(GV(label))): lterms
+	skConc   sk = iota // concrete evaluator value in c
+	skGet              // the string Get prints for metric `label`
+	skBool             // symbolic boolean f
+	skBuf              // byte buffer (or its string view): pieces
+	skPtr              // pointer to a local variable
+	skRecv             // the receiver object (value or pointer)
+	skTuple            // multi-value
+	skIte              // f ? a : b
+	skUnk              // unknown number (results of the sizing function)
+	skStruct           // record of values (flag sets, typed error literals): fields
+	skBits             // integer whose bits are formulas (bit sets): bits, LSB first
+	skArr              // fixed array of values: elems
+	skLin              // integer as a linear form: lbase + Σ [guard]·k (+ len(GV(label))): lterms
 )
 
 type sval struct {
@@ -104,13 +104,13 @@ type spath struct {
 }
 
 type piece struct {
-	lit    string   // literal text (guard == nil, label == "")
-	src    ast.Expr // expression the literal came from
-	label  string   // GV(label)
-	guard  *bform   // guarded alternative
-	then   []piece
-	els    []piece
-	at     ast.Node
+	lit   string   // literal text (guard == nil, label == "")
+	src   ast.Expr // expression the literal came from
+	label string   // GV(label)
+	guard *bform   // guarded alternative
+	then  []piece
+	els   []piece
+	at    ast.Node
 }
 
 // boolean formulas over atoms GV(label) == lit
@@ -333,10 +333,10 @@ const (
 )
 
 type sout struct {
-	ctrl sctrl
-	st   *sstate
-	cond *bform // nil = true
-	ret  sval
+	ctrl     sctrl
+	st       *sstate
+	cond     *bform // nil = true
+	ret      sval
 	leftLoop bool
 }
 
@@ -1478,7 +1478,6 @@ func (in *semit) store(st *sstate, lhs ast.Expr, v sval) error {
 	}
 	return serr(lhs, "assignment target outside the emitter language")
 }
-
 
 // ---------------------------------------------------------------------------
 // references into local variables (fields, array elements, through pointers)
